@@ -13,7 +13,7 @@ Definition pay_vals_ok (c : cfg) (e : entry) (p : pc) : Prop :=
       fee_sufficient (pol c) (recv e) (e_deliver e) = true /\ mf <= recv e - e_deliver e /\ md <= pol_delta (pol c) /\
       am = match e_inv_amount e with Some _ => None | None => Some (e_deliver e) end
   | PPay _ _ _ => fee_sufficient (pol c) (recv e) (e_deliver e) = true
-  | PSelect _ => rdy_q e = false /\ fail_q e = None       (* both queues were drained when it went back to sleep *)
+  | PSelect _ => True
   | _ => True
   end.
 
@@ -129,10 +129,10 @@ Proof.
   inversion H1; inversion H2; subst. split; [apply EInv_set_queues; auto|]. unfold set_queues, info_of; cbn. auto.
 Qed.
 
-Lemma pay_vals_ok_rel c e e' p : entry_rel (Some e) (Some e') -> match p with PSelect _ => False | _ => True end -> pay_vals_ok c e p -> pay_vals_ok c e' p.
+Lemma pay_vals_ok_rel c e e' p : entry_rel (Some e) (Some e') -> pay_vals_ok c e p -> pay_vals_ok c e' p.
 Proof.
-  intros [H|[H|(en & rq & fq & H1 & H2 & _)]] Hp V; [discriminate|inversion H; subst; exact V|].
-  inversion H1; inversion H2; subst. destruct p; cbn in *; auto. contradiction.
+  intros [H|[H|(en & rq & fq & H1 & H2 & _)]] V; [discriminate|inversion H; subst; exact V|].
+  inversion H1; inversion H2; subst. destruct p; cbn in *; auto.
 Qed.
 
 (* installing a lifecycle step preserves InvE *)
@@ -194,10 +194,10 @@ Lemma InvE_same_pl c s s' : pl s' = pl s -> InvE c s -> InvE c s'.
 Proof. intros H [A B]. constructor; rewrite H; auto. Qed.
 
 Lemma pay_vals_ok_handle c e h p :
-  EInv c e -> match p with PSelect _ => False | _ => True end -> pay_vals_ok c e p -> pay_vals_ok c (e_handle c e h) p.
+  EInv c e -> pay_vals_ok c e p -> pay_vals_ok c (e_handle c e h) p.
 Proof.
-  intros HE Hp V. destruct (e_handle_ident c e h) as (_ & Hd & Hi & _). destruct (e_handle_mono c e h HE) as (Hr & _).
-  destruct p; cbn in *; auto; try contradiction; rewrite ?Hd, ?Hi.
+  intros HE V. destruct (e_handle_ident c e h) as (_ & Hd & Hi & _). destruct (e_handle_mono c e h HE) as (Hr & _).
+  destruct p; cbn in *; auto; rewrite ?Hd, ?Hi.
   - destruct V as (V1 & V2 & V3 & V4). repeat split; auto; [exact (fee_sufficient_mono _ _ _ _ Hr V1)|lia].
   - destruct V as (V1 & V2 & V3 & V4). repeat split; auto; [exact (fee_sufficient_mono _ _ _ _ Hr V1)|lia].
   - exact (fee_sufficient_mono _ _ _ _ Hr V).
@@ -219,39 +219,12 @@ Proof.
     + pose proof (ie_entry c s HE e He) as HEe.
       destruct (e_handle_ident c e h) as (Hb & Hd & Hi & _).
       assert (Hinfo : info_of (e_handle c e h) = info_of e) by (unfold info_of; rewrite Hb, Hd, Hi; reflexivity).
-      destruct (find_select 0 (lcs (pl s))) as [[[i d] li]|] eqn:Hf.
-      * destruct (find_select_spec _ _ _ _ _ Hf) as (x & Hx & Hp & Hli & _). rewrite Nat.sub_0_r in Hx. subst li.
-        assert (Ax : attached (l_pc x) = true) by (rewrite Hp; reflexivity).
-        set (s1 := {| nd := nd s; pl := {| entry_ := Some (e_handle c e h); lcs := lcs (pl s); next_att := next_att (pl s) |}; calls := calls s; now := now s; height := height s |}).
-        set (a := select_poll c (l_info x) (length (calls s)) (height s) (now s) d (Some (e_handle c e h)) true (next_att (pl s))).
-        assert (HA : InvE c (fst (apply_adv s1 i a))).
-        { assert (HU1 : InvU s1) by (unfold InvU in *; cbn; rewrite He in HU; exact HU).
-          assert (Hok : adv_ok true (Some (e_handle c e h)) a) by apply select_poll_ok.
-          assert (Hae : adv_entry_ok c (l_info x) (Some (e_handle c e h)) a).
-          { apply select_poll_entry_ok. intros en Hen. inversion Hen; subst. split; [apply EInv_handle; exact HEe|].
-            rewrite Hinfo. exact (proj1 (ie_lc c s HE e i x He Hx Ax)). }
-          destruct Hae as (Hrel & Hvals).
-          destruct (apply_adv_lcs s1 i a x Hx) as (Hl & Hen & _).
-          constructor.
-          - intros e' He'. rewrite Hen in He'. rewrite He' in Hrel.
-            apply (EInv_entry_rel c _ e' Hrel). apply EInv_handle; exact HEe.
-          - intros e' j y He' Hy Ay. rewrite Hen in He'. rewrite Hl in Hy. rewrite He' in Hrel.
-            destruct (EInv_entry_rel c _ e' Hrel (EInv_handle c e h HEe)) as (_ & Hinfo' & _).
-            destruct (nth_upd_cases _ _ _ _ _ Hy) as [[-> ->]|[Hne Hy']].
-            + cbn [set_pc l_pc l_info] in *. split; [|apply Hvals; auto].
-              rewrite Hinfo', Hinfo. exact (proj1 (ie_lc c s HE e j x He Hx Ax)).
-            + exfalso. unfold InvU in HU. rewrite He in HU. apply Hne. exact (n_att_one_unique _ HU i j x y Hx Hy' Ax Ay). }
-        subst s1 a. match type of HA with InvE c (fst ?t) => destruct t as [s2 o2] end. exact HA.
-      * constructor; cbn.
-        -- intros e' He'. inversion He'; subst. apply EInv_handle; exact HEe.
-        -- intros e' j y He' Hy Ay. inversion He'; subst. destruct (ie_lc c s HE e j y He Hy Ay) as (I1 & I2).
-           split; [rewrite Hinfo; exact I1|]. apply pay_vals_ok_handle; auto.
-           exact (find_select_none_no_select _ _ Hf j y Hy).
+      constructor; cbn.
+      * intros e' He'. inversion He'; subst. apply EInv_handle; exact HEe.
+      * intros e' j y He' Hy Ay. inversion He'; subst. destruct (ie_lc c s HE e j y He Hy Ay) as (I1 & I2).
+        split; [rewrite Hinfo; exact I1|]. apply pay_vals_ok_handle; auto.
     + unfold InvU in HU. rewrite He in HU.
-      assert (Hfs : forall n, find_select n (lcs (pl s) ++ [{| l_pc := PFetch (length (calls s)); l_info := {| li_blob := blob h; li_deliver := deliver h; li_inv_amount := inv_amount h |} |}]) = None).
-      { clear -HU. induction (lcs (pl s)) as [|z r IH]; intros n; cbn in *; [reflexivity|].
-        destruct (l_pc z); cbn in HU; try lia; apply IH; lia. }
-      rewrite Hfs. constructor; cbn.
+      constructor; cbn.
       * intros e' He'. inversion He'; subst. apply EInv_handle, EInv_new.
       * intros e' j y He' Hy Ay. inversion He'; subst.
         destruct (Nat.lt_ge_cases j (length (lcs (pl s)))) as [Hlt|Hge].
@@ -259,6 +232,13 @@ Proof.
         -- rewrite nth_error_app2 in Hy by exact Hge. destruct (j - length (lcs (pl s)))%nat as [|k]; cbn in Hy; [|destruct k; discriminate].
            inversion Hy; subst. cbn. split; [|exact I].
            destruct (e_handle_ident c (new_entry h) h) as (Hb & Hd & Hi & _). unfold info_of. rewrite Hb, Hd, Hi. reflexivity.
+  - (* EvPoll *)
+    destruct (find_select 0 (lcs (pl s))) as [[[i d] li]|] eqn:Hf; [|exact HE].
+    destruct (find_select_spec _ _ _ _ _ Hf) as (x & Hx & Hp & Hli & _). rewrite Nat.sub_0_r in Hx. subst li.
+    assert (Ax : attached (l_pc x) = true) by (rewrite Hp; reflexivity).
+    apply (apply_adv_InvE c s i _ x HU HE Hx).
+    + rewrite Ax. apply select_poll_ok.
+    + apply select_poll_entry_ok. intros en Hen. split; [exact (ie_entry c s HE en Hen)|exact (proj1 (ie_lc c s HE en i x Hen Hx Ax))].
   - (* EvProcess *)
     destruct (nth_error (calls s) cid) as [cl|]; [|exact HE]. destruct (c_st cl); try exact HE.
     destruct (node_exec (nd s) (c_rpc cl) f) as [n' y]. apply (InvE_same_pl c s); [reflexivity|exact HE].
